@@ -41,6 +41,9 @@ class Prop(common.PropertyCheck):
                 rows[0].update({'iid': 'FC001', 'time_order': rng.choice(['wrap', 'random'])})
                 rows[0]['units'][0] = rng.choice(['RFI', 'a.u.']); rows[0]['units'][1] = rng.choice(['Channel', 'RFI'])     # channels of resolution 1024 and 256
                 rewrite = True
+                # a row reporting one calibrated channel in MEF; the other calibrated channel, not reported in MEF, was acquired at another detector voltage
+                rows[1].update({'iid': 'FC001', 'volt_other': {'FL3': 700}})
+                rows[1]['units'][0] = ['MEF', 'mef'][i % 2]; rows[1]['units'][2] = [None, 'RFI', 'Channel'][(i // 3) % 3]
             elif i % 3 == 1:
                 # double-precision file with events outside the declared range (no saturation gate for floating-point data)
                 dt = 'D'
@@ -55,6 +58,8 @@ class Prop(common.PropertyCheck):
                 # and a float row gated at fraction 1 with scatter events outside the declared range, fluorescence clipped at zero
                 rows[-1].update({'gf': rng.choice([1.0, 1]), 'scatter_out': True, 'nonneg': 'zero'})
                 rows[-1]['units'][1] = rng.choice(['a.u.', 'RFI', 'Channel'])
+                # every event of the last row was recorded at the same clock tick: its acquisition time is exactly zero
+                rows[-1]['time_order'] = 'const'
             if i % 2 == 1:
                 rows[-1]['n'] = 400        # exactly the documented minimum number of events: analysed like any other file
             yield {'scatter_res': 256 if i % 3 == 1 or (i % 3 == 0 and i % 2 == 1) else None, 'odd_headers': i % 2 == 0, 'seed': rng.randrange(1 << 30), 'datatype': dt, 'ninst': ninst,
@@ -86,7 +91,8 @@ class Prop(common.PropertyCheck):
             iid = r['iid']
             fl = ex.inst[iid]['fl']
             fn = 's%d.fcs' % j
-            ex.write_fcs(fn, iid, n=r.get('n', 700), voltage=450, seed=case['seed'] % 1000 + 10 + j, nonneg=r['nonneg'], scatter_out=r.get('scatter_out', False), time_order=r.get('time_order', 'sorted'))
+            ex.write_fcs(fn, iid, n=r.get('n', 700), voltage=450, seed=case['seed'] % 1000 + 10 + j, nonneg=r['nonneg'], scatter_out=r.get('scatter_out', False), time_order=r.get('time_order', 'sorted'),
+                         voltages=r.get('volt_other'))
             units = {}
             for c, u in zip(fl, r['units']):
                 cal = ('FL1', 'FL3') if iid == 'FC001' else ('GFP-A',)
